@@ -18,6 +18,7 @@ THEOREMS = ["C01.inserted_name_fresh", "C01.opcode_index_ok", "C01.step_insertQu
 
 
 def run(ctx):
+    fp.BMM_CONST_LHS[0] = 0.2   # BATCH_MATMUL with the CONSTANT on the left is generated here (finding D42 is classified by this check)
     ctx.rule = ("generated float models in converter normal form (typed DAG grower over the 21 supported op types + unsupported float ops; "
                 "multi-consumer tensors, repeated operands, consumed graph outputs, inputs that are outputs, dead outputs, name hazards, "
                 "1-3 subgraphs/signatures, tied constants) x recipes (shipped, uniform per policy entry, random mixed rule sequences with "
@@ -30,9 +31,10 @@ def run(ctx):
     def per_case(case, res):
         if res["status"] == "ok":
             fp.oracle_c01(ctx, interp, case, res)
-            if res.get("ksig") is False:
-                # C01.kernel_signatures_ok: under NF, FloatModel, DataRuntime and WeightConst16 (which the generator's models satisfy) every
-                # operator of the output has a signature of the kernel table
+            if res.get("ksig") is False and "bmm_constant_left_operand" not in case.info["tags"]:
+                # C01.kernel_signatures_ok: under NF, FloatModel, DataRuntime and WeightConst16 every operator of the output has a signature
+                # of the kernel table.  A BATCH_MATMUL with the constant on the LEFT violates DataRuntime (finding D42: the interpreter run
+                # above is what reports it); every other generated model satisfies the hypotheses
                 ctx.fail("an operator of the returned model has an operand-type signature outside the kernel table "
                          + str([x for x in (res["model_resp"].get("ksig_sigs") or []) if x and not x[3]][:2]), case.replay(), "ksig-rejected")
             if ctx.rng.random() < 0.12 and not res.get("policy"):
